@@ -177,6 +177,114 @@ fn check_value(kind: &str, value: u32, st: &mut Stats) -> R {
     Ok(())
 }
 
+/// every (host instruction, parameterised kind) pair of the grammar
+fn hosts() -> &'static Vec<(usize, &'static str, K)> {
+    static H: std::sync::OnceLock<Vec<(usize, &'static str, K)>> = std::sync::OnceLock::new();
+    H.get_or_init(|| {
+        let g = golden();
+        let mut v = vec![];
+        for (gi_idx, gi) in g.core.iter().enumerate() {
+            if gi.operands.iter().any(|(k, _)| matches!(k, K::LiteralContextDependentNumber | K::PairLiteralIntegerIdRef | K::LiteralSpecConstantOpInteger)) {
+                continue;
+            }
+            for (kind, _) in PARAM_KINDS {
+                let k = kinds::kind_from_name(kind).unwrap();
+                if gi.operands.iter().any(|(ok, _)| *ok == k) {
+                    v.push((gi_idx, *kind, k));
+                }
+            }
+        }
+        v
+    })
+}
+
+/// words of host instruction `gi` carrying `value` (+ `params`) in its first operand of kind `k`;
+/// operands before it are present, optional / variadic ones after it absent
+fn host_words(gi: &crate::golden::GInst, k: K, value: u32, params: &[u32]) -> Vec<u32> {
+    use rspirv::grammar::OperandQuantifier as Q;
+    let mut w = vec![gi.opcode];
+    let mut done = false;
+    for (ok, q) in &gi.operands {
+        if *ok == k && !done {
+            w.push(value);
+            w.extend_from_slice(params);
+            done = true;
+            continue;
+        }
+        match q {
+            Q::One => match ok {
+                K::IdResultType | K::IdResult => w.push(40 + w.len() as u32),
+                other => w.extend(kind_word(*other)),
+            },
+            _ => {
+                if !done {
+                    w.extend(kind_word(*ok));
+                }
+            }
+        }
+    }
+    w[0] |= (w.len() as u32) << 16;
+    w
+}
+
+/// the parser-side clauses through EVERY instruction of the grammar that can carry the kind
+/// (OpDecorate / OpMemberDecorate / OpDecorateId / OpDecorateString ..., OpExecutionMode /
+/// OpExecutionModeId, every image, memory and cooperative-matrix instruction)
+fn sub_hosts(input: &[u8], st: &mut Stats) -> R {
+    let i = idx(input) as usize;
+    let Some((gi_idx, kind, k)) = hosts().get(i).copied() else { return Ok(()) };
+    let g = golden();
+    let gi = &g.core[gi_idx];
+    let ge = g.enums.get(kind).unwrap();
+    let vals: Vec<u32> = if ge.is_mask {
+        let mut v = vec![0, ge.all_bits];
+        for a in &ge.bits {
+            v.push(a.bit);
+        }
+        // pairs with the lowest parameterised bit
+        if let Some(pb) = ge.bits.iter().find(|b| !b.params.is_empty()) {
+            for a in &ge.bits {
+                v.push(a.bit | pb.bit);
+            }
+        }
+        v.sort();
+        v.dedup();
+        v
+    } else {
+        ge.values.iter().map(|e| e.value).collect()
+    };
+    for value in &vals {
+        let value = *value;
+        let op = enum_operand(k, value).ok_or_else(|| Fail::new("harness", kind, format!("{} {} is not declared", kind, value)))?;
+        let f = |clause: &str, msg: String| Fail::new(clause, format!("{}:{:#x}@{}", kind, value, gi.opname), msg);
+        let reported: Vec<K> = no_panic("Operand::additional_operands", || op.additional_operands())?.iter().map(|o| o.kind).collect();
+        let gp = golden_params(ge, value);
+        let mut pw: Vec<u32> = vec![];
+        for p in &gp {
+            pw.extend(kind_word(*p));
+        }
+        let mut bin = header_words((1, 6), 100);
+        bin.extend(host_words(gi, k, value, &pw));
+        let (c, r) = parse_words_collect(&bin)?;
+        if let Err(e) = &r {
+            return Err(f("parser-consumes-reported", format!("Op{} carrying {:?} with its parameters rejected: {}", gi.opname, op, e)));
+        }
+        let inst = &c.insts[0];
+        let pos = inst.operands.iter().position(|o| *o == op).ok_or_else(|| f("parser-consumes-reported", "value operand not delivered".into()))?;
+        let delivered: Vec<String> = inst.operands[pos + 1..].iter().take(reported.len()).map(operand_variant).collect();
+        let want: Vec<String> = reported.iter().map(|k| variant_of(*k)).collect();
+        let ok = if ge.is_mask { sorted(&delivered) == sorted(&want) } else { delivered == want };
+        if !ok {
+            return Err(f("reflection-vs-parser", format!("in Op{} after {:?} the parser delivers {:?}, reflection reports {:?}", gi.opname, op, delivered, want)));
+        }
+        st.evaluations += 1;
+    }
+    st.evaluations -= 1;
+    st.set_insert("hosts", format!("{}:{}", gi.opname, kind));
+    st.nontrivial(hash_str(&format!("{}:{}", gi.opname, kind)));
+    Ok(())
+}
+
 /// every enumerant of ExecutionMode / Decoration; every bit, pair and all bits of the 4 masks
 fn sub_values(input: &[u8], st: &mut Stats) -> R {
     let i = idx(input) as usize;
@@ -373,6 +481,7 @@ pub const SUBS: &[Sub] = &[
     Sub { name: "parameterised-values", f: sub_values },
     Sub { name: "random-mask-subsets", f: sub_random_masks },
     Sub { name: "operand-variants", f: sub_variants },
+    Sub { name: "every-host-instruction", f: sub_hosts },
 ];
 
 pub fn run(ctx: &Ctx) {
@@ -380,6 +489,7 @@ pub fn run(ctx: &Ctx) {
     drive_enum(ctx, &SUBS[0], PARAM_KINDS.len() as u64);
     drive_random(ctx, &SUBS[1], ctx.n(20_000, 10_000_000), 64);
     drive_enum(ctx, &SUBS[2], 1);
+    drive_enum(ctx, &SUBS[3], hosts().len() as u64);
 }
 
 pub fn finish(ctx: &Ctx) -> i32 {
